@@ -7,6 +7,7 @@ INVARIANT IncompleteIff
 INVARIANT NeededExact
 INVARIANT FragmentRule
 INVARIANT BodiesRoundTrip
+INVARIANT BigMessages
 INVARIANT Unsupported
 INVARIANT DatagramRecordByRecord
 INVARIANT EmitCase
